@@ -18,7 +18,7 @@ DK = {'TSTEP': 'DT', 'LAY': 'DL', 'ROW': 'DR', 'COL': 'DC'}
 FK = {'mean': 'FMean', 'min': 'FMin', 'max': 'FMax', 'sum': 'FSum', 'half': 'FHalf'}
 
 RULE = ('IOAPI file with 1-4 time steps (hourly or 2-hourly, inside one day), 1-4 layers, 1-3 rows/columns or a PERIM axis, 1-3 listed '
-        'variables, built by ioapi_base.from_arrays (gridded or boundary) or written to netCDF and re-opened with the ioapi reader; then 1-4 '
+        'variables, built by ioapi_base.from_arrays (gridded or boundary), from GRIDDESC text (griddesc reader, gridded or boundary), or written to netCDF and re-opened with the ioapi reader; then 1-4 '
         'operations out of copy, subsetVariables (incl. empty and unknown selections), renameVariable, sliceDimensions (one or two of '
         'TSTEP/LAY/ROW/COL per call; int incl. negative, slice incl. negative steps, unsorted index list), applyAlongDimensions (mean/min/max/sum or x[::2] on TSTEP/LAY/ROW/COL), eval, mask, stack on TSTEP, interpSigma; '
         'the ten metadata encodings are read after every step. Non-trivial = some successful step changed them.')
@@ -26,8 +26,8 @@ TRUSTED = ['the observation (NVARS, VAR-LIST chunks, VAR/TSTEP/LAY/ROW/COL lengt
            'is read from the real object by harness/props/c10.py',
            'TFLAG re-creation is modelled inside one day only (no calendar arithmetic; C11/C12)',
            'audit_meta structural keys are used as a secondary oracle only']
-ASSUMPTIONS = ['only variables with the standard dimensions are modelled; files built from GRIDDESC text are not generated',
-               'sliceDimensions with two index lists in one call (POINTS path) is not modelled here (C01 drives it); after a selection that leaves a non-positive TSTEP attribute the sequence stops (TFLAG re-creation is modelled for positive steps only)',
+ASSUMPTIONS = ['only variables with the standard dimensions are modelled',
+               'of the multi-list (POINTS) selections only the zipped TSTEP+one-other-dimension form is modelled here (C01 drives the others); after a selection that leaves a non-positive TSTEP attribute the sequence stops (TFLAG re-creation is modelled for positive steps only)',
                'eval/stack directly on a netCDF4-backed ioapi object raise TypeError (as for C01) and are not generated as first step of a disk-read file']
 TECHNIQUE = 'Coq proof (invariant by induction over operation sequences) + vm_compute refutation witnesses + differential correspondence on random operation sequences'
 LEVEL_TEXT = ('Theorems (Props/C10.v, closed under the global context) over a structure-level Gallina model of the IOAPI wrappers (code as repaired by '
@@ -48,6 +48,14 @@ def build(init, workdir=None):
     import numpy as np
     from PseudoNetCDF.cmaqfiles import ioapi_base
     nt, nl = init['nt'], init['nl']
+    if init['how'] == 'griddesc':
+        # an IOAPI file built from GRIDDESC text (cmaqfiles/_griddesc.py), gridded or boundary
+        from PseudoNetCDF.cmaqfiles._griddesc import griddesc
+        txt = ("' '\n'LCC'\n  2        33.000        45.000       -97.000       -97.000        40.000\n' '\n'TESTG'\n"
+               "'LCC'    792000.000  -1080000.000     12000.000     12000.000 %d  %d   1\n' '\n" % (init['nc'], init['nr']))
+        return griddesc(txt, GDNAM='TESTG', withcf=False, FTYPE=(1 if init['grid'] else 2), nsteps=nt,
+                        var_kwds={k: dict(units='ppm') for k in init['vars']}, VGLVLS=np.linspace(1, 0, nl + 1),
+                        SDATE=init['sdate'], STIME=init['stime'], TSTEP=init['tstep'])
     if init['grid']:
         shape = (nt, nl, init['nr'], init['nc'])
     else:
@@ -220,7 +228,9 @@ def crows(rows):
 
 
 def modelable(st):
-    if st['odd'] or any(v not in NID for v in st['varlist']):
+    # variables without the standard dimensions (e.g. on POINTS after a zipped selection) are not part of the modelled state;
+    # they are only tolerated when they use names the model knows
+    if any(v not in NID for v in st['odd']) or any(v not in NID for v in st['varlist']):
         return False
     # -1 = attribute missing; the TSTEP attribute itself may be negative (reversed selections) but never -1 (whole hours)
     if min(st['vardim'], st['nvars'], st['a_nl'], st['a_nr'], st['a_nc'], st['nvgl'], st['sdate'], st['stime']) < 0 or st['tstep'] == -1:
@@ -352,7 +362,7 @@ def shrink(case):
 # ----------------------------------------------------------------------------- generation
 def gen_init(rng):
     grid = rng.random() < 0.75
-    how = rng.choice(['arrays', 'arrays', 'disk'])
+    how = rng.choice(['arrays', 'arrays', 'disk', 'griddesc'])
     vs = rng.sample(['O3', 'NO', 'CO'], rng.randint(1, 3))
     return dict(how=how, grid=grid, nt=rng.randint(1, 4), nl=rng.randint(1, 4), nr=rng.randint(1, 3), nc=rng.randint(1, 3),
                 nperim=rng.choice([4, 6, 14]), vars=vs, sdate=rng.choice([2000001, 1999365, 2004060]),
@@ -393,7 +403,7 @@ def gen_op(rng, st, first_disk, malformed):
             n = dl[d]
             kind = rng.choice(['int', 'slice', 'slice', 'list'])
             if kind == 'list' and haslist:
-                kind = 'slice'                 # two index lists take the POINTS path (C01)
+                kind = 'slice'                 # other multi-list selections take the POINTS path (C01)
             if kind == 'int':
                 sel = ['int', rng.randint(-n, n - 1)]
             elif kind == 'slice':
@@ -405,8 +415,19 @@ def gen_op(rng, st, first_disk, malformed):
                 haslist = True
                 sel = ['list', rng.sample(range(n), rng.randint(1, n))]      # unsorted, distinct positions
             sels.append([d, sel])
+        if rng.random() < 0.12 and len(dl) >= 2 and dl['TSTEP'] >= 1:
+            # zipped selection: index lists of one length on TSTEP and on one other dimension (POINTS path; TFLAG keeps its own selection)
+            other = rng.choice([d for d in sorted(dl) if d != 'TSTEP'])
+            m = rng.randint(1, 3)
+            sels = [['TSTEP', ['list', [rng.randrange(dl['TSTEP']) for _ in range(m)]]],
+                    [other, ['list', [rng.randrange(dl[other]) for _ in range(m)]]]]
+            if rng.random() < 0.4:
+                third = [d for d in sorted(dl) if d not in ('TSTEP', other)]
+                if third:
+                    d3 = rng.choice(third)
+                    sels.append([d3, ['slice', None, None, rng.choice([None, -1])]])
         if malformed:
-            d = ds[0]
+            d = sels[0][0]
             sels[0] = [d, ['int', dl[d]]]
         return dict(op='slice', sels=sels)
     if k == 'apply':
@@ -457,7 +478,7 @@ def gen(rng, n, tier):
                             break        # incoherent result (known-defect regions): nothing is claimed about later steps
             except Exception:
                 pass
-            kind = ('malformed:' if malformed else '') + ('boundary:' if not init['grid'] else '') + (ops[-1]['op'] if ops else 'none')
+            kind = ('malformed:' if malformed else '') + ('boundary:' if not init['grid'] else '') + ('griddesc:' if init['how'] == 'griddesc' else '') + (ops[-1]['op'] if ops else 'none')
             out.append(dict(kind=kind, init=init, ops=ops))
     finally:
         shutil.rmtree(work, ignore_errors=True)
